@@ -115,7 +115,7 @@ func c14(c *rig.Ctx) {
 	c.Assume("value tuples are canonical, so byte equality of values is the model's value equality")
 	c.Assume("how a resolved delete-vs-modify is applied is the caller's business: the differ check uses the handler's value for it")
 	st := newStats()
-	n := c.Pick(300, 6000)
+	n := c.Pick(300, 15000)
 	parallel(n, workers, func(i int) { c14Triple(c, st, i, n) })
 	st.flush(c)
 	c.Require(st.get("c14.collisions.resolved") > 0, "no collision was resolved")
